@@ -769,3 +769,27 @@ Lemma nth_error_app_some {A} (l l2 : list A) j x :
 Proof.
   intro H. rewrite nth_error_app1; auto. apply nth_error_Some. congruence.
 Qed.
+
+Lemma iter_comm {A} (f : A -> A) k x : Nat.iter k f (f x) = f (Nat.iter k f x).
+Proof.
+  induction k as [|k IH]; [reflexivity|].
+  change (f (Nat.iter k f (f x)) = f (f (Nat.iter k f x))). now rewrite IH.
+Qed.
+
+(* a successful call applies f at least once to every listed host, none is a client *)
+Lemma for_hosts_in f :
+  forall hs l l', for_hosts f l hs = (l', true) ->
+  forall h r, In h hs -> nth_error l h = Some r ->
+    is_client r = false /\ exists k, nth_error l' h = Some (Nat.iter (S k) f r).
+Proof.
+  induction hs as [|x rest IH]; intros l l' E h r Hin Er; [destruct Hin|].
+  cbn in E. destruct (nth_error l x) as [rx|] eqn:Ex; [|discriminate].
+  destruct (is_client rx) eqn:Ec; [discriminate|].
+  destruct (Nat.eq_dec x h) as [->|Hn].
+  - rewrite Er in Ex. inversion Ex; subst rx. split; [exact Ec|].
+    destruct (for_hosts_rel _ _ _ _ _ E) as (_ & R).
+    destruct (R h (f r)) as (k & A & _); [now rewrite nth_error_upd_nth_eq, Er|].
+    exists k. rewrite A. f_equal. apply iter_comm.
+  - destruct Hin as [->|Hin]; [congruence|].
+    eapply IH; eauto. now rewrite nth_error_upd_nth_neq.
+Qed.
